@@ -28,7 +28,7 @@ SPEC_STR = r"""
 SPEC_LIST = r"""
     ensures
         in_range(maybe_start, maybe_end, list.0.0@.len() as int) ==> (r matches Ok(x) && x.source is None
-            && (x.v matches Value::List(o) && o.0.0@ == list.0.0@.subrange(lo(maybe_start), hi(maybe_end, list.0.0@.len() as int)))), // [C11:list_range_read_inside_the_domain_has_length_b_minus_a_and_kth_element_s_a_plus_k]
+            && (x.v matches Value::List(o) && o.0.0@ == list.0.0@.subrange(lo(maybe_start), hi(maybe_end, list.0.0@.len() as int)))), // [C11_C14:list_range_read_inside_the_domain_has_length_b_minus_a_and_kth_element_s_a_plus_k_with_its_provenance]
         !in_range(maybe_start, maybe_end, list.0.0@.len() as int) ==> (r matches Err(e)
             && e == (Error::RangeOutOfListBounds{start: lo(maybe_start) as usize, end: hi(maybe_end, list.0.0@.len() as int) as usize})), // [C11:list_range_read_outside_the_domain_is_a_reported_error_naming_the_bounds]
 """
